@@ -168,6 +168,10 @@ func (p *Parser) Parse(formatOnly bool) (*bytes.Buffer, int) {
 		n, _ := p.dest.WriteString(text)
 		wrote += n
 	}
+	// a line that exceeds the scanner's buffer ends the loop early; never continue with truncated input
+	if err := fileScanner.Err(); err != nil {
+		logger.Fatal().Err(err).Msg("failed to read input")
+	}
 
 	// now that the file was parsed, we replace all definitions
 	if len(p.variables) > 0 {
